@@ -1,14 +1,350 @@
-//! C02 — stub, to be implemented.
-#![allow(dead_code)]
+//! C02 — every received request gets exactly one well-formed answer (H1 tier).
+//!
+//! One injected cause per plan, on one *victim* request that has its own cluster (`cv`), next to
+//! clean traffic (other clients, earlier requests on the victim's connection) judged by the C01
+//! oracle. The victim is judged against the cause → allowed-outcome table of the statement.
+use serde::{Deserialize, Serialize};
 use serde_json::Value;
+
+use super::c01;
+use crate::actors::h1::*;
+use crate::actors::Pace;
 use crate::framework::*;
+use crate::netsim::{self, Knobs};
+use crate::prng::Prng;
+use crate::scenario::*;
+use crate::world::{MS, SEC};
 
 pub struct C02;
 
+#[derive(Clone, Debug, Serialize, Deserialize, PartialEq)]
+pub enum Cause {
+    NoRoute,
+    Denied,
+    NoBackend,
+    AllRefuse,
+    Blackhole,
+    CloseOnAccept,
+    /// backend reads the request then closes after `k` bytes of its response
+    CloseAt(usize),
+    StallAt(usize),
+    Garbage,
+    /// client stops sending after k bytes of the victim request
+    ClientStall(usize),
+    /// backend silently closes its keep-alive connection after the previous response
+    KeepAliveClose,
+    /// backend answers only after this many ms (longer than back_timeout)
+    SlowAnswer(u64),
+}
+
+#[derive(Clone, Debug, Serialize, Deserialize)]
+pub struct Plan {
+    pub http: HttpPlan,
+    pub cause: Cause,
+    /// (client index, request index) of the victim
+    pub victim: (usize, usize),
+    /// length of the victim response head (raw bytes up to and including CRLFCRLF)
+    pub head_len: usize,
+    pub resp_len: usize,
+    pub deadline_ns: u64,
+}
+
+const VHOST: &str = "cv.test";
+
+pub fn generate(seed: u64, tier: Tier, forced: Option<(Cause, BodySpec)>) -> Plan {
+    let mut rng = Prng::derive(seed, "c02/plan");
+    let faulty = rng.below(3) == 0;
+    let mut knobs = Knobs::default();
+    knobs.back_timeout = *rng.pick(&[2u32, 5, 30]);
+    knobs.connect_timeout = *rng.pick(&[1u32, 3]);
+    knobs.request_timeout = *rng.pick(&[2u32, 10]);
+    knobs.front_timeout = *rng.pick(&[8u32, 60]);
+    let max_body = match tier { Tier::Quick => 60_000, Tier::Thorough => 400_000 };
+    let front = "10.0.0.1:80".parse().unwrap();
+    // ---- clean traffic: cluster c0
+    let mut next_id = 1u64;
+    let mut responses0 = std::collections::BTreeMap::new();
+    let mut clients = Vec::new();
+    let nclients = 1 + rng.below(3) as usize;
+    let mut hint0 = 0usize;
+    let clean_req = |rng: &mut Prng, next_id: &mut u64, responses0: &mut std::collections::BTreeMap<u64, RespSpec>, hint0: &mut usize| -> ReqSpec {
+        let id = *next_id; *next_id += 1;
+        let mut r = ReqSpec::get(id, "c0.test", &format!("/r/{id}"));
+        let body = random_body(rng, knobs.buffer_size as usize, max_body, false);
+        r.body = match body { BodySpec::Close(n) => BodySpec::Cl(n), b => b };
+        if r.body != BodySpec::None { r.method = "POST".into(); } else { r.headers.push(("Content-Length".into(), "0".into())); }
+        let mut resp = RespSpec::ok(random_body(rng, knobs.buffer_size as usize, max_body, true));
+        if let BodySpec::Close(n) = resp.body { resp.body = BodySpec::Cl(n); }
+        *hint0 += r.body.len() + resp.body.len() + 400;
+        responses0.insert(id, resp);
+        r
+    };
+    for ci in 0..nclients {
+        let n = rng.below(3) as usize + if ci == 0 { 0 } else { 1 };
+        let mut reqs = Vec::new();
+        for _ in 0..n { reqs.push(clean_req(&mut rng, &mut next_id, &mut responses0, &mut hint0)); }
+        clients.push(ClientPlan {
+            name: format!("cl{ci}"), src: format!("192.0.2.{}:{}", 7 + ci, 40001 + ci).parse().unwrap(), dst: front,
+            start_ns: rng.below(3) * MS, pace: Pace::random_budget(&mut rng, 60000, 200_000_000), pipeline: false, requests: reqs, abort: None,
+            sndbuf: None, think_ns: 0, linger_ns: 0, give_up_ns: 0,
+        });
+    }
+    // ---- the victim: last request of client 0, to cluster cv
+    let vid = next_id;
+    let is_forced = forced.is_some();
+    let (cause, vbody) = match forced {
+        Some(f) => f,
+        None => {
+            let body = match rng.below(3) { 0 => BodySpec::Cl(boundary_size(&mut rng, knobs.buffer_size as usize, max_body)), 1 => { let n = boundary_size(&mut rng, knobs.buffer_size as usize, max_body); BodySpec::Chunked(random_chunks(&mut rng, n)) } _ => BodySpec::Cl(rng.below(300) as usize) };
+            (Cause::NoRoute, body) // cause replaced below
+        }
+    };
+    let mut vreq = ReqSpec::get(vid, VHOST, &format!("/r/{vid}"));
+    if rng.below(3) == 0 { vreq.method = "POST".into(); vreq.body = BodySpec::Cl(boundary_size(&mut rng, knobs.buffer_size as usize, 40_000)); } else { vreq.headers.push(("Content-Length".into(), "0".into())); }
+    let mut vresp = RespSpec::ok(vbody);
+    let rendered = vresp.render(vid);
+    let head_len = rendered.windows(4).position(|w| w == b"\r\n\r\n").map(|p| p + 4).unwrap_or(rendered.len());
+    let resp_len = rendered.len();
+    let cause = if is_forced { cause } else {
+        match rng.below(16) {
+            0 => Cause::NoRoute,
+            1 => Cause::Denied,
+            2 => Cause::NoBackend,
+            3 => Cause::AllRefuse,
+            4 => Cause::Blackhole,
+            5 => Cause::CloseOnAccept,
+            6 => Cause::CloseAt(0),
+            7 => Cause::CloseAt(1 + rng.below(head_len as u64 - 1) as usize),
+            8 | 9 => Cause::CloseAt(if resp_len > head_len { head_len + rng.below((resp_len - head_len) as u64) as usize } else { head_len.saturating_sub(1) }),
+            10 => Cause::StallAt(0),
+            11 => Cause::StallAt(if resp_len > head_len { head_len + rng.below((resp_len - head_len) as u64) as usize } else { 0 }),
+            12 => Cause::Garbage,
+            13 => Cause::ClientStall(1 + rng.below((vreq.render().len() as u64).max(2) - 1) as usize),
+            14 => Cause::KeepAliveClose,
+            _ => Cause::SlowAnswer((knobs.back_timeout as u64 + 1 + rng.below(3)) * 1000),
+        }
+    };
+    let mut vmode = BackendMode::Listen { delay_ns: rng.below(2) * rng.below(10 * MS) };
+    let mut vbackends = 1;
+    let mut extra_frontends = vec![];
+    let mut close_on_accept = vec![];
+    // "no request stays unanswered beyond the configured timeouts": base margin + the listener's timeouts
+    let mut deadline = 6 * SEC + (knobs.front_timeout as u64 + knobs.back_timeout as u64) * SEC;
+    match &cause {
+        Cause::NoRoute => { vreq.host = "nohost.test".into(); }
+        Cause::Denied => { extra_frontends.push(("deny.test".to_string(), None)); vreq.host = "deny.test".into(); }
+        Cause::NoBackend => { vbackends = 0; }
+        Cause::AllRefuse => { vmode = BackendMode::Refuse { delay_ns: rng.below(2) * rng.below(5 * MS) }; }
+        Cause::Blackhole => { vmode = BackendMode::Blackhole; deadline += knobs.connect_timeout as u64 * 4 * SEC; }
+        Cause::CloseOnAccept => { close_on_accept = (0..8).collect(); }
+        Cause::CloseAt(k) => { vresp.fault = Some(RespFault::CloseAt(*k)); }
+        Cause::StallAt(k) => { vresp.fault = Some(RespFault::StallAt(*k)); }
+        Cause::Garbage => { vresp.fault = Some(RespFault::Garbage(b"\x16\x03\x01 this is not http\r\n\r\n".to_vec())); }
+        Cause::ClientStall(_) => { deadline += knobs.request_timeout as u64 * SEC; }
+        Cause::KeepAliveClose => {}
+        Cause::SlowAnswer(ms) => { vresp.delay_ns = ms * MS; deadline += ms * MS; }
+    }
+    let mut vresponses = std::collections::BTreeMap::new();
+    // KeepAliveClose: a first request to cv whose response is followed by a silent close
+    if cause == Cause::KeepAliveClose {
+        let pid = vid + 1;
+        let mut pre = ReqSpec::get(pid, VHOST, &format!("/r/{pid}"));
+        pre.headers.push(("Content-Length".into(), "0".into()));
+        let mut presp = RespSpec::ok(BodySpec::Cl(rng.below(2000) as usize));
+        presp.silent_close_after = true;
+        vresponses.insert(pid, presp);
+        clients[0].requests.push(pre);
+        clients[0].think_ns = rng.below(3) * MS;
+    }
+    vresponses.insert(vid, vresp);
+    let victim = (0usize, clients[0].requests.len());
+    clients[0].requests.push(vreq.clone());
+    if let Cause::ClientStall(k) = &cause {
+        // offset is relative to the victim request: translate to a connection offset
+        let before: usize = clients[0].requests[..victim.1].iter().map(|r| r.render().len()).sum();
+        clients[0].abort = Some(ClientAbort::StallAtSent(before + k));
+    }
+    clients[0].give_up_ns = deadline + 20 * SEC;
+    let b0 = BackendPlan { name: "b0".into(), addr: "10.1.0.1:8000".parse().unwrap(), pace: Pace::random_budget(&mut rng, hint0, 200_000_000), responses: responses0, default: RespSpec::ok(BodySpec::Cl(3)), close_on_accept: vec![], listen_from_ns: 0, listen_until_ns: 0 };
+    let mut clusters = vec![ClusterPlan { id: "c0".into(), host: "c0.test".into(), backends: vec![(b0, BackendMode::Listen { delay_ns: 0 })] }];
+    let mut vb = Vec::new();
+    for i in 0..vbackends {
+        vb.push((BackendPlan { name: format!("bv{i}"), addr: format!("10.2.0.{}:8000", i + 1).parse().unwrap(), pace: Pace::random_budget(&mut rng, resp_len + 42000, 200_000_000), responses: vresponses.clone(), default: RespSpec::ok(BodySpec::Cl(3)), close_on_accept: close_on_accept.clone(), listen_from_ns: 0, listen_until_ns: 0 }, vmode.clone()));
+    }
+    clusters.push(ClusterPlan { id: "cv".into(), host: VHOST.into(), backends: vb });
+    let name = match &cause { Cause::CloseAt(k) => if *k == 0 { "close_before_answer".to_string() } else if *k < head_len { "close_mid_head".into() } else { "close_mid_body".into() }, Cause::StallAt(k) => if *k == 0 { "stall_before_answer".into() } else { "stall_mid_body".into() }, Cause::ClientStall(_) => "client_stall".into(), Cause::SlowAnswer(_) => "slow_answer".into(), c => format!("{c:?}").to_lowercase() };
+    let http = HttpPlan {
+        seed, family: format!("h1h1_{name}{}", if faulty { "+buggify" } else { "" }), knobs, sched: netsim::default_sched(&mut rng, faulty), front, clusters, clients,
+        sndbufs: if rng.below(3) == 0 { Some(vec![0, 4608, 9216, 32768]) } else { None }, settle_ns: 0, extra_frontends,
+    };
+    Plan { http, cause, victim, head_len, resp_len, deadline_ns: deadline }
+}
+
+fn status_set(v: &[u16]) -> String { v.iter().map(|s| s.to_string()).collect::<Vec<_>>().join("/") }
+
+pub fn oracle(p: &Plan, o: &HttpOutcome) -> Vec<Violation> {
+    let (vc, vr) = p.victim;
+    // clean traffic: everything before the victim on its connection and all other connections
+    let pre_victim_kac = if p.cause == Cause::KeepAliveClose { 1 } else { 0 };
+    let mut v = c01::oracle_filtered(&p.http, o, &|ci, ri| ci == vc && ri + pre_victim_kac >= vr);
+    let oc = &o.clients[vc];
+    let cname = match &p.cause { Cause::CloseAt(k) => if *k == 0 { "close_before_answer".to_string() } else if *k < p.head_len { "close_mid_head".into() } else { "close_mid_body".into() }, Cause::StallAt(k) => if *k == 0 { "stall_before_answer".into() } else { "stall_mid_body".into() }, Cause::ClientStall(_) => "client_stall".into(), Cause::SlowAnswer(_) => "slow_answer".into(), c => format!("{c:?}").to_lowercase() };
+    let key = |sym: &str| format!("{sym}|cause={cname}");
+    let vreq = &p.http.clients[vc].requests[vr];
+    let vid = vreq.id;
+    let sent = oc.rec.sent_done.iter().find(|(id, _)| *id == vid).map(|x| x.1);
+    // outcome of the victim as the client saw it
+    // a message the connection ended in the middle of is recorded with complete=false
+    let full = oc.responses.get(vr).filter(|m| m.complete);
+    let part = oc.responses.get(vr).filter(|m| !m.complete).or(if oc.responses.len() == vr { oc.partial.as_ref() } else { None });
+    let t_term = full.map(|m| m.t_end).or(if oc.rec.t_close_seen > 0 { Some(oc.rec.t_close_seen) } else { None });
+    // liveness: terminal observation within the deadline
+    if oc.rec.gave_up && full.is_none() {
+        v.push(Violation::new("no_answer", key("silence_past_deadline"), format!("victim #{vid}: no answer and connection still open {} ms after connect (deadline {} ms); partial={:?}", p.http.clients[vc].give_up_ns / MS, p.deadline_ns / MS, part.map(|m| (m.status(), m.body_len)))));
+        return v;
+    }
+    if let (Some(s), Some(t)) = (sent, t_term) {
+        if t > s + p.deadline_ns { v.push(Violation::new("late_answer", key("deadline"), format!("victim #{vid}: terminal observation {} ms after the request was sent, bound {} ms", (t - s) / MS, p.deadline_ns / MS))); }
+    }
+    if oc.responses.len() > p.http.clients[vc].requests.len() { v.push(Violation::new("two_answers", key("extra_response"), format!("client got {} responses for {} requests", oc.responses.len(), p.http.clients[vc].requests.len()))); }
+    let proxy_status = full.filter(|m| m.sim_id.is_none()).map(|m| m.status());
+    let relayed_ok = full.map_or(false, |m| m.sim_id == Some(vid) && m.complete && m.body_ok() && m.body_len == p.http.clusters[1].backends.get(0).map_or(0, |b| b.0.responses[&vid].body.len() as u64));
+    let aborted = full.is_none() && (oc.rec.eof || oc.rec.io_err.is_some());
+    let delivered_bytes = part.map_or(0, |m| m.raw_head.len() as u64 + m.body_len);
+    let expect_status = |allowed: &[u16], v: &mut Vec<Violation>| {
+        match proxy_status {
+            Some(s) if allowed.contains(&s) => {
+                let m = full.unwrap();
+                if !m.complete { v.push(Violation::new("malformed_answer", key("unterminated_default_answer"), format!("proxy answer {s} not terminated"))); }
+            }
+            Some(s) => v.push(Violation::new("wrong_status", key(&format!("got={s}")), format!("victim #{vid}: got proxy answer {s}, allowed {}", status_set(allowed)))),
+            None if relayed_ok => v.push(Violation::new("wrong_status", key("got=relayed"), format!("victim #{vid}: got a relayed 200 although cause {:?} makes that impossible", p.cause))),
+            None if full.is_some() => v.push(Violation::new("wrong_status", key("got=other"), format!("victim #{vid}: got {:?}", full.map(|m| m.start.clone())))),
+            None => v.push(Violation::new("no_answer", key("closed_without_answer"), format!("victim #{vid}: connection ended without any answer (eof={} err={:?} partial={:?}), allowed {}", oc.rec.eof, oc.rec.io_err, part.map(|m| (m.status(), m.body_len)), status_set(allowed)))),
+        }
+    };
+    match &p.cause {
+        Cause::NoRoute => expect_status(&[404], &mut v),
+        Cause::Denied => expect_status(&[401], &mut v),
+        Cause::NoBackend | Cause::AllRefuse => expect_status(&[503], &mut v),
+        // connect attempts time out: "no usable backend" and "backend timeout" are both true
+        Cause::Blackhole => expect_status(&[503, 504], &mut v),
+        Cause::CloseOnAccept => expect_status(&[502, 503], &mut v),
+        Cause::Garbage => expect_status(&[502], &mut v),
+        Cause::CloseAt(k) if *k < p.head_len => expect_status(&[502, 503], &mut v),
+        Cause::StallAt(k) if *k < p.head_len => expect_status(&[504], &mut v),
+        Cause::SlowAnswer(_) => expect_status(&[504], &mut v),
+        Cause::CloseAt(k) | Cause::StallAt(k) => {
+            // response started at the backend: relayed bytes then an explicit abort; or a clean 502/504 if
+            // nothing was delivered yet. Never a complete-looking message.
+            let want = if matches!(p.cause, Cause::CloseAt(_)) { 502 } else { 504 };
+            if let Some(m) = full {
+                if m.sim_id == Some(vid) {
+                    v.push(Violation::new("short_body_presented_complete", key(&format!("framing={}", match m.mode { crate::actors::h1codec::BodyMode::Cl(_) => "cl", crate::actors::h1codec::BodyMode::Chunked => "chunked", _ => "other" })), format!("victim #{vid}: backend cut its response at byte {k} of {} but the client received a *complete* message ({} body bytes, ok={})", p.resp_len, m.body_len, m.body_ok())));
+                } else if proxy_status != Some(want) {
+                    v.push(Violation::new("wrong_status", key(&format!("got={}", m.status())), format!("victim #{vid}: got proxy answer {}, allowed {want} or an abort", m.status())));
+                }
+            } else if !aborted {
+                v.push(Violation::new("no_answer", key("no_abort"), format!("victim #{vid}: neither answer nor abort; partial={:?}", part.map(|m| (m.status(), m.body_len)))));
+            } else if let Some(m) = part {
+                if !m.body_ok() { v.push(Violation::new("body_mismatch", key("corrupted_before_abort"), format!("victim #{vid}: bytes delivered before the abort differ at {:?}", m.check.first_bad))); }
+                if delivered_bytes > *k as u64 + 64 { v.push(Violation::new("body_mismatch", key("more_than_backend_sent"), format!("victim #{vid}: client got {delivered_bytes} bytes, backend sent {k}"))); }
+            }
+        }
+        Cause::ClientStall(_) => {
+            // request never fully received: 408/400 or plain close, but the connection must not hang
+            // once the header block was complete the request is already linked to a backend, whose
+            // timeout may fire first: the backend-timeout status is then also accepted
+            let head_done = if let Cause::ClientStall(k) = &p.cause { let raw = vreq.render(); raw.windows(4).position(|w| w == b"\r\n\r\n").map_or(false, |p| *k >= p + 4) } else { false };
+            if let Some(s) = proxy_status { if !([408, 400].contains(&s) || (head_done && s == 504)) { v.push(Violation::new("wrong_status", key(&format!("got={s}")), format!("victim #{vid}: stalled client got {s}, allowed 408"))); } }
+            if relayed_ok { v.push(Violation::new("wrong_status", key("got=relayed"), "stalled (incomplete) request was answered by the backend".to_string())); }
+        }
+        Cause::KeepAliveClose => {
+            if !relayed_ok && !matches!(proxy_status, Some(502) | Some(503)) {
+                v.push(Violation::new(if full.is_none() { "no_answer" } else { "wrong_status" }, key(&format!("got={:?}", full.map(|m| m.status()))), format!("victim #{vid} after backend keep-alive close: allowed a retried 200 or 502/503; got {:?} aborted={aborted}", full.map(|m| m.start.clone()))));
+            }
+        }
+    }
+    // the victim never reaches the clean cluster
+    for rec in &o.backends[0][0] { for q in &rec.requests { if q.sim_id == Some(vid) { v.push(Violation::new("misrouted", key("victim_on_clean_backend"), format!("victim #{vid} was forwarded to c0"))); } } }
+    v
+}
+
+pub fn summarize(p: &Plan) -> String {
+    format!("cause={:?} victim=#{} (head {} of {} bytes) back_timeout={}s connect_timeout={}s; {}", p.cause, p.http.clients[p.victim.0].requests[p.victim.1].id, p.head_len, p.resp_len, p.http.knobs.back_timeout, p.http.knobs.connect_timeout, c01::summarize(&p.http).chars().take(300).collect::<String>())
+}
+
 impl Property for C02 {
     fn id(&self) -> &'static str { "C02" }
-    fn runs(&self, _tier: Tier) -> u64 { 0 }
-    fn gen_plan(&self, _seed: u64, _tier: Tier) -> Value { Value::Null }
-    fn run_plan(&self, _plan: &Value) -> RunReport { RunReport { harness_error: Some("not implemented".into()), ..Default::default() } }
-    fn descr(&self) -> Descr { Descr { level: "exploration", rule: "", assumptions: vec![], real: vec![], stub: vec![], not_covered: vec![] } }
+    fn runs(&self, tier: Tier) -> u64 { match tier { Tier::Quick => 6000, Tier::Thorough => 120000 } }
+    fn gen_plan(&self, seed: u64, tier: Tier) -> Value { serde_json::to_value(generate(seed, tier, None)).unwrap() }
+    fn enumerated(&self, tier: Tier) -> Vec<Value> {
+        // fault enumeration: backend closes / stalls at *every* byte offset of a small response
+        let mut v = Vec::new();
+        let bodies = [BodySpec::Cl(40), BodySpec::Chunked(vec![7, 20, 3])];
+        let step = match tier { Tier::Quick => 3, Tier::Thorough => 1 };
+        for (bi, b) in bodies.iter().enumerate() {
+            let probe = generate(1000 + bi as u64, tier, Some((Cause::CloseAt(0), b.clone())));
+            let mut k = 0;
+            while k < probe.resp_len {
+                v.push(serde_json::to_value(generate(7_000_000 + (bi * 1000 + k) as u64, tier, Some((Cause::CloseAt(k), b.clone())))).unwrap());
+                if tier == Tier::Thorough || k % 9 == 0 { v.push(serde_json::to_value(generate(8_000_000 + (bi * 1000 + k) as u64, tier, Some((Cause::StallAt(k), b.clone())))).unwrap()); }
+                k += step;
+            }
+        }
+        v
+    }
+    fn run_plan(&self, plan: &Value) -> RunReport {
+        let p: Plan = match serde_json::from_value(plan.clone()) { Ok(p) => p, Err(e) => return RunReport { harness_error: Some(format!("bad plan: {e}")), ..Default::default() } };
+        let o = run_http(&p.http, false);
+        let violations = oracle(&p, &o);
+        let mut rep = RunReport { seed: p.http.seed, family: p.http.family.clone(), violations, trace_hash: o.trace_hash, stats: o.stats.clone(), summary: summarize(&p), ..Default::default() };
+        let oc = &o.clients[p.victim.0];
+        rep.nontrivial = oc.responses.len() + oc.partial.iter().count() > 0 || oc.rec.eof;
+        rep.probes.insert(format!("victim_outcome:{}", match oc.responses.get(p.victim.1) { Some(m) if m.sim_id.is_some() => "relayed".to_string(), Some(m) => format!("proxy_{}", m.status()), None if oc.partial.is_some() => "abort_after_partial".into(), None => "closed".into() }), 1);
+        if let Some(e) = o.boot_error { rep.harness_error = Some(format!("worker boot failed: {e}")); }
+        rep
+    }
+    fn shrink(&self, plan: &Value) -> Vec<Value> {
+        let Ok(p) = serde_json::from_value::<Plan>(plan.clone()) else { return vec![] };
+        let mut out = Vec::new();
+        for h in c01::shrink_http(&p.http) {
+            // keep the victim: client 0 must keep its last request(s)
+            if h.clients.is_empty() || h.clients[0].name != "cl0" { continue; }
+            let keep = p.http.clients[0].requests.len() - p.victim.1;
+            if h.clients[0].requests.len() < keep { continue; }
+            let tail_ok = h.clients[0].requests[h.clients[0].requests.len() - keep..].iter().map(|r| r.id).eq(p.http.clients[0].requests[p.victim.1..].iter().map(|r| r.id));
+            if !tail_ok { continue; }
+            if h.clients[0].abort.is_none() && p.http.clients[0].abort.is_some() { continue; }
+            // the victim response body must stay as planned (fault offsets refer to it)
+            let same_resp = h.clusters.get(1).map(|c| serde_json::to_string(&c.backends.iter().map(|b| &b.0.responses).collect::<Vec<_>>()).unwrap()) == p.http.clusters.get(1).map(|c| serde_json::to_string(&c.backends.iter().map(|b| &b.0.responses).collect::<Vec<_>>()).unwrap());
+            let vreq_same = serde_json::to_string(h.clients[0].requests.last().unwrap()).unwrap() == serde_json::to_string(p.http.clients[0].requests.last().unwrap()).unwrap();
+            if !same_resp || !vreq_same { continue; }
+            let mut q = p.clone();
+            q.victim = (0, h.clients[0].requests.len() - keep);
+            if let Some(ClientAbort::StallAtSent(_)) = h.clients[0].abort {
+                if let Cause::ClientStall(k) = &p.cause {
+                    let before: usize = h.clients[0].requests[..q.victim.1].iter().map(|r| r.render().len()).sum();
+                    let mut h2 = h.clone(); h2.clients[0].abort = Some(ClientAbort::StallAtSent(before + k)); q.http = h2; out.push(serde_json::to_value(q).unwrap()); continue;
+                }
+            }
+            q.http = h;
+            out.push(serde_json::to_value(q).unwrap());
+        }
+        out
+    }
+    fn debug_plan(&self, plan: &Value) -> String {
+        let p: Plan = serde_json::from_value(plan.clone()).unwrap();
+        format!("{}\n{}", summarize(&p), c01::debug_http(&serde_json::to_value(&p.http).unwrap()))
+    }
+    fn descr(&self) -> Descr {
+        Descr {
+            level: "exploration",
+            rule: "seeded plans: clean H1 traffic plus one victim request with one injected cause (no route, denied, no backend, refused, black-holed connect, close on accept, backend close/stall at a byte offset of its response, garbage, slow answer past back_timeout, client stall, keep-alive close), plus an enumeration of close/stall at every response offset for two small responses; the victim is judged against the cause->allowed-outcome table, everything else against the C01 oracle; non-trivial = the victim reached a terminal observation; distinct = distinct trace hashes",
+            assumptions: vec!["AF_UNIX stands in for TCP", "release semantics", "status table taken from the property statement; where two causes coincide either status is accepted"],
+            real: vec!["sozu_lib::server::Server::run (mux, answers, timers, retry, backends)", "mio", "Linux epoll + AF_UNIX"],
+            stub: vec!["IP network", "clock (virtual: back/connect/request timeouts fire in microseconds of wall time)", "entropy", "clients", "backends", "master"],
+            not_covered: vec!["HTTP/2 and TLS pairs (RST_STREAM / GOAWAY aborts), 421 and 429 outcomes (see C17 / C16)"],
+        }
+    }
 }
